@@ -260,3 +260,25 @@ def r6(ctx: Ctx) -> None:
     ctx.site(f.where, "create_square requires a centre")
     if ("cmp", "isnot", ("a", ("self",), "center"), ("k", "none")) not in facts:
         ctx.report(f.where, "square-needs-centre", "create_square does not refuse a module without centre", lineno=f.node.lineno)
+
+
+@rule("C03", "R7.fresh-geometry", "PURE",
+      "the geometric queries the allocation relies on (bounding_box, area, area_overlap, point_inside) have no effect and "
+      "read centre / shape afresh on every call: no memo that an in-place move of a rectangle (centre.x += dx, as done "
+      "when hard modules are re-centred) could leave stale", floor=4)
+def r7(ctx: Ctx) -> None:
+    for q in ["Rectangle.bounding_box", "Rectangle.area", "Rectangle.area_overlap", "Rectangle.point_inside"]:
+        f = ctx.func(GEOM, q)
+        stores = [n for n in walk_own(f.node) if isinstance(n, (ast.Attribute, ast.Subscript)) and isinstance(n.ctx, (ast.Store, ast.Del))]
+        stores += [n for n in walk_own(f.node) if isinstance(n, (ast.Global, ast.Nonlocal))]
+        decos = [ast.unparse(d) for d in f.node.decorator_list]
+        cached = [d for d in decos if "cache" in d]
+        reads_state = any(isinstance(n, ast.Attribute) and n.attr in ("center", "shape", "_center", "_shape", "bounding_box") for n in walk_own(f.node))
+        ctx.site(f.where, "store-free, uncached, reads the current centre/shape", stores=len(stores), cache_decorators=cached, reads_state=reads_state)
+        for n in stores:
+            ctx.report(f.where, f"geometry-query-stores {ast.unparse(n)[:60]}", f"{q} writes state ({ast.unparse(n)[:40]}): a memoised bounding box / area goes stale when a rectangle "
+                       "is moved in place (recenter_rectangles, flips)", lineno=n.lineno)
+        for d in cached:
+            ctx.report(f.where, f"geometry-query-cached {d}", f"{q} is cached by a decorator: rectangles are moved in place, so the cached value goes stale", lineno=f.node.lineno)
+        if not reads_state:
+            ctx.report(f.where, "geometry-query-no-state", f"{q} does not read the rectangle's current centre/shape", lineno=f.node.lineno)
